@@ -17,7 +17,7 @@ func init() {
 		Run: runC34,
 		Explanation: "Static decision of the token-check structure: (1) in every VolumeServer HTTP handler each store-touching sink (ReplicatedWrite/ReplicatedDelete/ReadVolumeNeedle/ReadEcShardNeedle/DeleteEcShardNeedle) is reachable only through the true edge of the JWT check, and mutating sinks only through a check called with isWrite=true; " +
 			"(2) the check returns true only when no key is configured for that direction (write key on the isWrite edge, read key otherwise) or past token!=\"\" && DecodeJwt err==nil && token.Valid with the result being claim.Fid == vid+\",\"+fid; " +
-			"(3) DecodeJwt parses with SeaweedFileIdClaims and its key function hands out the key only on the *jwt.SigningMethodHMAC type-assertion success edge. Signature and exp/nbf validation inside golang-jwt are trusted.",
+			"(3) DecodeJwt parses with SeaweedFileIdClaims and its key function hands out the key only on the *jwt.SigningMethodHMAC type-assertion success edge. Signature and exp/nbf validation inside golang-jwt are trusted. Also decided: the claims type's Valid method is the one promoted from jwt.StandardClaims (or delegates to it); DecodeJwt returns a token without error only past a successful parse of this request's token with this request's key.",
 		Assumptions: []string{"golang-jwt ParseWithClaims validates signature, exp and nbf", "handlers are the (w,r) methods of *VolumeServer"},
 		Trusted:     append([]string{"github.com/golang-jwt/jwt"}, baseTrusted...),
 	})
